@@ -10,7 +10,8 @@ report the mean of some set of added values.  CORRESPONDENCE: atomic order read 
 throttle: 1-3 callers under a virtual clock supplied as time_func/sleep_func (time advances only when a
 sleeping caller is resumed, never while an admission is in flight), random arrival gaps, counts 1-5 and
 periods count*2^k so that rate is a power of two and every binary64 operation of the implementation is
-exact.  MONITOR: sliding window over the timestamps at which the wrapped function starts:
+exact; a second family places arrivals at (next token due) - eps for eps from 0 and one tick of 2^-30 s up to 2^-10 s
+(`thr_boundary`, `thr_gen_fine`), alone, followed by immediate calls, and with several callers at the same instant.  MONITOR: sliding window over the timestamps at which the wrapped function starts:
 #starts in [t_i, t_j] <= count + rate*(t_j - t_i) for all i <= j (exact fractions; observed slack
 reported); every call starts exactly once; a lone caller sleeps at most once per call.
 CORRESPONDENCE: the sequence of (caller, clock reading) of the transact blocks -> check_throttle:
@@ -37,6 +38,7 @@ TRUSTED = [
     'translator templates of tools/emit_recipes.py for Averager and throttle (AST equality outside the holes)',
     'throttle arithmetic is exact over Q in the model; binary64 rounding in the implementation is not modelled (the harness uses values on which it is exact and the exact comparison of every tally would expose any rounding)',
     'the virtual clock of harness/props/c20.py: time_func reads it, sleep_func suspends the caller until it is resumed at or after its wake time',
+    'token-boundary arrivals: every clock reading is an integer number of ticks of 2^-30 s below 2^11 s and rate is a power of two, so the binary64 arithmetic of throttle is exact on them (re-checked per run: throttle_boundary_cases_off_the_tick_grid must be 0) and the window bound is decided on the exact rationals; eps values are the powers of two nearest to 1 ns, 0.5 us, 1 us (one just below, one just above), 2 us and 1 ms',
 ]
 ASSUMPTIONS = [
     'the averager / throttle key is touched by nobody else, has no ttl and is not evicted',
@@ -422,6 +424,69 @@ def thr_gen(rng, n=None):
             'gaps': gaps, 'schedule': schedule[:L]}
 
 
+# arrivals at and just around the instant the next token falls due.  Every clock reading is an integer number of ticks of
+# 2^-30 s (a binary nanosecond, 0.93 ns) below 2^11 s, and rate is a power of two, so every binary64 operation of the
+# implementation (elapsed*rate, tally, (1 - tally)/rate, now + delay) is exact and the window bound is decided exactly on the
+# rationals the floats denote (`thr_monitor`; `on_tick_grid` re-checks the grid claim on every run).
+TICK = 2.0 ** -30
+EPS = [0.0, 2.0 ** -30, 2.0 ** -21, 2.0 ** -20, 2.0 ** -20 + 2.0 ** -24, 2.0 ** -19, 2.0 ** -10]    # 0, ~1 ns, ~0.5 us, ~0.95 us, ~1.01 us, ~1.9 us, ~1 ms
+
+
+def on_tick_grid(out):
+    ts = [t for _, t in out['starts']] + [t for _, t in out['attempts']] + [v for o in out['outcomes'] for k, v in o]
+    return all((t / TICK) == int(t / TICK) for t in ts)
+
+
+def thr_boundary():
+    """directed: the bucket is drained by a burst of `count` calls at one instant, so the next token falls due exactly one
+    period P = seconds/count later; callers then arrive at due - eps"""
+    cs = []
+    for count, seconds in ((1, 1.0), (2, 1.0), (2, 4.0), (4, 1.0)):
+        P = seconds / count
+        for eps in EPS:
+            base_ = {'check': 'throttle', 'count': count, 'seconds': seconds, 'variant': 'own', 'shards': 1, 'schedule': [], 'family': 'boundary'}
+            # a lone caller arriving at due - eps, followed at once by two more calls
+            cs.append(dict(base_, gaps=[[0] * count + [P - eps, 0, 0]]))
+            # the same arrival, then calls just after the token was taken and just before the following one is due
+            cs.append(dict(base_, gaps=[[0] * count + [P - eps, eps, P - eps, P - eps]]))
+            # several callers arriving at that same instant while the first one drained the bucket
+            cs.append(dict(base_, gaps=[[0] * count, [P - eps, 0], [P - eps, P - eps]]))
+    return cs
+
+
+def thr_gen_fine(rng):
+    """random arrival patterns whose gaps are whole periods plus or minus a small eps, zero (bursts) or eps itself"""
+    n = rng.choice([1, 2, 2, 3])
+    count = rng.choice([1, 2, 2, 3, 4])
+    k = rng.choice([-2, -1, 0, 0, 1, 2])
+    seconds = count * 2.0 ** k
+    P = 2.0 ** k
+    variant = rng.choice(['own', 'own', 'shared', 'fanout'])
+    shards = rng.choice([1, 3]) if variant.startswith('fanout') else 1
+
+    def gap():
+        r = rng.random()
+        eps = rng.choice(EPS)
+        if r < 0.3:
+            return 0
+        if r < 0.65:
+            return rng.choice([1, 1, 2, count, count + 1]) * P - eps
+        if r < 0.8:
+            return rng.choice([1, 2]) * P + eps
+        if r < 0.9:
+            return eps
+        return rng.choice([0.5, 0.25]) * P
+    gaps = [[gap() for _ in range(rng.choice([2, 3, 4, 6]))] for i in range(n)]
+    if rng.random() < 0.6:
+        gaps[0] = [0] * count + gaps[0]         # drain first, so that later arrivals are measured from a known due time
+    L = rng.choice([0, 10, 40])
+    schedule = []
+    while len(schedule) < L:
+        schedule += [rng.randrange(n)] * rng.choice([1, 2, 4, 8])
+    return {'check': 'throttle', 'count': count, 'seconds': seconds, 'variant': variant, 'shards': shards,
+            'gaps': gaps, 'schedule': schedule[:L], 'family': 'boundary'}
+
+
 def thr_run(ctx, res, cases, hist, correspond=True):
     checks, info = [], []
     overflows = 0
@@ -437,9 +502,17 @@ def thr_run(ctx, res, cases, hist, correspond=True):
         overflows += 1 if out['overflow'] else 0
         bad, slack = thr_monitor(case, out)
         for sig, desc in bad:
+            if case.get('family') == 'boundary':
+                sig += ':token-boundary-arrivals'
             res.violations.append(fw.Violation(sig, desc, case))
         n = len(case['gaps'])
         hist['thr_callers'][n] = hist['thr_callers'].get(n, 0) + 1
+        if case.get('family') == 'boundary':
+            hist['thr_boundary_cases'] = hist.get('thr_boundary_cases', 0) + 1
+            small = [v for o in out['outcomes'] for k_, v in o if k_ == 'sleep' and 0 < v <= 2.0 ** -9]
+            hist['thr_sleeps_shorter_than_2ms'] = hist.get('thr_sleeps_shorter_than_2ms', 0) + len(small)
+            if not out['overflow'] and not any(out['errors']) and not on_tick_grid(out):
+                hist['thr_off_grid'] = hist.get('thr_off_grid', 0) + 1
         ncalls = sum(len(g) for g in case['gaps'])
         res.count(case, nontrivial=ncalls > case['count'])
         if slack is not None:
@@ -499,6 +572,9 @@ def finish(res, hist):
     res.extra['throttle_runs_with_a_tight_window'] = hist['thr_tight_windows']
     res.extra['throttle_runs_with_a_sleep'] = hist['thr_runs_with_sleep']
     res.extra['throttle_attempts_compared'] = hist['thr_attempts']
+    res.extra['throttle_boundary_arrival_cases'] = hist.get('thr_boundary_cases', 0)
+    res.extra['throttle_sleeps_shorter_than_2ms'] = hist.get('thr_sleeps_shorter_than_2ms', 0)
+    res.extra['throttle_boundary_cases_off_the_tick_grid'] = hist.get('thr_off_grid', 0)
 
 
 def run(ctx):
@@ -507,6 +583,10 @@ def run(ctx):
                 'ALL event-level schedules of a fixed length over two clients plus random bursty schedules, then round-robin; non-trivial = '
                 'at least two adds.  throttle: counts 1-5, periods count*2^k (k=-2..2), 1-3 callers with random arrival gaps from '
                 '{0, 1/8, 1/4, 1/2, 1, 2, 4} s under a virtual clock and random schedules, plus simultaneous bursts of count+2 calls; '
+                'arrivals at and around token boundaries on a clock of integer ticks of 2^-30 s: the bucket drained by a burst, then 1-3 callers '
+                'arriving at (next token due) - eps for eps in {0, 2^-30, 2^-21, 2^-20, 2^-20+2^-24, 2^-19, 2^-10} s (0, ~1 ns, ~0.5 us, ~0.95 us, '
+                '~1.01 us, ~1.9 us, ~1 ms), followed by immediate calls, by calls eps after the token was taken and by several callers at the same '
+                'instant, plus random patterns with gaps m*period +- eps, 0 and eps; the window bound count + rate*W is decided on exact rationals.  '
                 'non-trivial = more calls than count.  distinct = distinct case description.')
     hist = base_hist()
     rng = ctx.rng
@@ -514,6 +594,7 @@ def run(ctx):
     acases = list(avg_enum(L)) + [avg_gen(rng) for _ in range(200 if ctx.quick else 2000)]
     avg_run(ctx, res, acases, hist)
     tcases = thr_special() + [thr_gen(rng) for _ in range(250 if ctx.quick else 2500)]
+    tcases += thr_boundary() + [thr_gen_fine(rng) for _ in range(60 if ctx.quick else 1200)]
     thr_run(ctx, res, tcases, hist)
     res.extra['exhaustive'] = False
     res.extra['enumerated_schedule_length'] = L
@@ -525,7 +606,7 @@ def search(ctx, broken):
     res = fw.Result()
     hist = base_hist()
     avg_run(ctx, res, list(avg_enum(9)) + [avg_gen(ctx.rng) for _ in range(300)], hist, correspond=False)
-    thr_run(ctx, res, thr_special() + [thr_gen(ctx.rng) for _ in range(400)], hist, correspond=False)
+    thr_run(ctx, res, thr_special() + thr_boundary() + [thr_gen(ctx.rng) for _ in range(400)] + [thr_gen_fine(ctx.rng) for _ in range(300)], hist, correspond=False)
     return res
 
 
